@@ -16,7 +16,7 @@ RULE = ("(e) explicit-state BFS to a fixpoint: IdentityDict vs a list-of-pairs r
         "get_code(tower) must be the code object recorded by the base function when the tower is called, and a registration "
         "through the tower must land on it. (b) every nesting path of depth <= 3 over {function, class, async function, lambda-free} "
         "with unique names. (c) pairs of equal-but-distinct code objects: registration affects only the registered one, the latest "
-        "registration wins. (d) 2^3 flags x {no elaborate, returns None, returns replacement} x {direct, decorator, nested-name}. "
+        "registration wins. (d) 2^3 flags x {no elaborate, returns None, returns replacement, returns PRUNE, returns []} x {direct, decorator, nested-name}. "
         "states/transitions count leg (e); evaluations counts all legs.")
 ASSUMPTIONS = ["towers are well-formed: a raw classmethod/staticmethod object is only ever the outermost layer or accessed through its class"]
 
@@ -293,7 +293,7 @@ def mk_repl():
 
 def customize_cases():
     for hide, hide_line, prune in itertools.product((False, True), repeat=3):
-        for elab in ("none", "retnone", "replace"):
+        for elab in ("none", "retnone", "replace", "retprune", "retempty"):
             for form in ("direct", "decorator", "nested"):
                 yield {"hide": hide, "hide_line": hide_line, "prune": prune, "elab": elab, "form": form}
 
@@ -311,6 +311,10 @@ def check_customize(case):
         calls.append((frame, next_inner))
         if case["elab"] == "replace":
             return repl
+        if case["elab"] == "retprune":
+            return stackscope.PRUNE
+        if case["elab"] == "retempty":
+            return []
         return None
     kw = {"hide": case["hide"], "hide_line": case["hide_line"], "prune": case["prune"]}
     if case["elab"] != "none":
@@ -345,6 +349,10 @@ def check_customize(case):
     if case["elab"] == "replace":
         if [f.pyframe for f in st.frames[1:]] != [repl.gi_frame]:
             problems.append("elaborate replacement not applied: frames %r" % (names,))
+    elif case["elab"] in ("retprune", "retempty"):
+        # the hook's own answer (remove the callees) stands whatever the prune flag says
+        if names != ["g"]:
+            problems.append("elaborate returned PRUNE/[] but callees present: %r" % (names,))
     elif case["prune"]:
         if names != ["g"]:
             problems.append("prune=True but callees present: %r" % (names,))
